@@ -1,4 +1,5 @@
 import PikaVerif.Lemmas.Mtx2
+import PikaVerif.Lemmas.Rec
 import PikaVerif.Lemmas.Excl
 /-!
 # C06 — Mutexes give mutual exclusion and always hand the lock on
@@ -419,5 +420,351 @@ example : (runLog step (init 2)
      .inv 0 .unlock, .slAcq 0, .disown 0, .popResume 0 0 1 true, .slRel 0, .ret 0 .ok,
      .inv 0 .tryl, .slAcq 0, .own 0 2 false, .slRel 0, .ret 0 .ok,
      .timeout 1, .slAcq 1, .cvWoke 1 false true, .slRel 1, .ret 1 .fail]).isSome = true := by decide
+
+end PikaVerif.C06
+
+/-! ## recursive_mutex_impl<spinlock> -/
+namespace PikaVerif.C06
+open PikaVerif PikaVerif.Rec
+
+def RReachable (s : St) : Prop := ∃ n log, runLog step (init n) log = some s
+
+/-- **Mutual exclusion (recursive).**  `depthG t` = successful `lock`/`try_lock` returns of `t`
+    minus its `unlock` invocations.  At most one thread has positive depth, and it is the
+    recorded `locking_context`. -/
+theorem C06_recursive_exclusion (s : St) (hr : RReachable s) (t u : Nat)
+    (ht : 0 < s.depthG t) (hu : 0 < s.depthG u) : t = u ∧ s.ctx = some t := by
+  obtain ⟨n, log, hlog⟩ := hr
+  have hi := rinv_of_accepted hlog
+  have h1 : s.ctx = some t := by
+    by_cases hc : s.ctx = some t
+    · exact hc
+    · have := (hi.notOwner t hc).1; omega
+  have h2 : s.ctx = some u := by
+    by_cases hc : s.ctx = some u
+    · exact hc
+    · have := (hi.notOwner u hc).1; omega
+  rw [h1] at h2
+  exact ⟨by simpa using h2, h1⟩
+
+/-- **Recursive depth.**  Between operations of the owner, `recursion_count` equals the
+    owner's locks minus unlocks (and is positive); every other thread has depth 0. -/
+theorem C06_recursive_depth (s : St) (hr : RReachable s) (t : Nat) :
+    (s.ctx = some t → s.pc t = .idle → s.cnt = s.depthG t ∧ 0 < s.depthG t) ∧
+    (s.ctx ≠ some t → s.depthG t = 0) := by
+  obtain ⟨n, log, hlog⟩ := hr
+  have hi := rinv_of_accepted hlog
+  constructor
+  · intro hc hp
+    have h1 := hi.depth t hc
+    have h2 := hi.cntPos t hc
+    rw [hp] at h1 h2
+    simp [pend, isZeroed] at h1 h2
+    omega
+  · intro hc; exact (hi.notOwner t hc).1
+
+def renters : List Ev → Nat
+  | [] => 0
+  | .csEnter _ :: l => renters l + 1
+  | _ :: l => renters l
+
+def rexits : List Ev → Nat
+  | [] => 0
+  | .csExit _ :: l => rexits l + 1
+  | _ :: l => rexits l
+
+theorem rcs_counters_step (s s' : St) (e : Ev) (h : step s e = some s') :
+    s'.enters = s.enters + renters [e] ∧ s'.exits = s.exits + rexits [e] := by
+  cases e <;> simp only [step] at h <;> (repeat' split at h) <;>
+    first | (simp at h; done) | (simp only [Option.some.injEq] at h; subst h; simp [renters, rexits])
+
+theorem rcs_counters_log (log : List Ev) : ∀ (s s' : St), runLog step s log = some s' →
+    s'.enters = s.enters + renters log ∧ s'.exits = s.exits + rexits log := by
+  induction log with
+  | nil => intro s s' h; simp at h; subst h; simp [renters, rexits]
+  | cons e es ih =>
+    intro s s' h
+    simp only [runLog] at h
+    cases hs : step s e with
+    | none => simp [hs] at h
+    | some s1 =>
+      simp only [hs] at h
+      have h1 := rcs_counters_step s s1 e hs
+      have h2 := ih s1 s' h
+      have ht : renters (e :: es) = renters [e] + renters es := by cases e <;> simp [renters] <;> omega
+      have ha : rexits (e :: es) = rexits [e] + rexits es := by cases e <;> simp [rexits] <;> omega
+      refine ⟨?_, ?_⟩ <;> omega
+
+/-- Critical sections (outermost lock … outermost unlock) never overlap in any history. -/
+theorem C06_recursive_no_overlap (n : Nat) (l₁ l₂ : List Ev) (s : St)
+    (h : runLog step (init n) (l₁ ++ l₂) = some s) :
+    rexits l₁ ≤ renters l₁ ∧ renters l₁ ≤ rexits l₁ + 1 := by
+  obtain ⟨s₁, h1, _⟩ := runLog_prefix h
+  have hi := rinv_of_accepted h1
+  have hc := rcs_counters_log l₁ _ s₁ h1
+  simp only [init] at hc
+  have hocc := hi.occSum
+  have hle : sumTo s₁.n (fun t => Rec.b2n (s₁.inCS t)) ≤ 1 := by
+    apply sumTo_le_one
+    · intro t; cases s₁.inCS t <;> simp [Rec.b2n]
+    · intro t u _ _ ht hu
+      have ht' : s₁.inCS t = true := by cases hh : s₁.inCS t <;> simp [hh, Rec.b2n] at ht ⊢
+      have hu' : s₁.inCS u = true := by cases hh : s₁.inCS u <;> simp [hh, Rec.b2n] at hu ⊢
+      exact (C06_recursive_exclusion s₁ ⟨n, l₁, h1⟩ t u (hi.csHold t ht') (hi.csHold u hu')).1
+  omega
+
+def RStuck (s : St) : Prop :=
+  ∀ e, (∀ t o, e ≠ .inv t o) → (∀ t, e ≠ .done t) → (∀ t, e ≠ .csEnter t) → (∀ t, e ≠ .csExit t) →
+    step s e = none
+
+/-- Spinning in `lock()`: not the owner, and the internal spinlock is taken. -/
+def RWaiting (s : St) (t : Nat) : Prop := s.pc t = .want .rlock ∧ s.ctx ≠ some t ∧ s.v ≠ none
+
+/-- **Progress (recursive).**  Stuck only with every thread between operations, finished, or
+    spinning in `lock()` on a taken spinlock. -/
+theorem C06_recursive_stuck_only_when_waiting (s : St) (hr : RReachable s) (hs : RStuck s) :
+    ∀ t, t < s.n → s.pc t = .idle ∨ s.pc t = .fin ∨ RWaiting s t := by
+  obtain ⟨n, log, hlog⟩ := hr
+  have hi := rinv_of_accepted hlog
+  intro t htn
+  have en : ∀ e, (∀ t o, e ≠ .inv t o) → (∀ t, e ≠ .done t) → (∀ t, e ≠ .csEnter t) →
+      (∀ t, e ≠ .csExit t) → step s e ≠ none → False :=
+    fun e h1 h2 h3 h4 h5 => h5 (hs e h1 h2 h3 h4)
+  cases hp : s.pc t
+  case idle => exact Or.inl rfl
+  case fin => exact Or.inr (Or.inl rfl)
+  case want o =>
+    cases o with
+    | rlock =>
+      by_cases hc : s.ctx = some t
+      · exact (en (.reent t (s.cnt + 1)) (by simp) (by simp) (by simp) (by simp) (by simp [step, htn, hc, hp])).elim
+      · by_cases hv : s.v = none
+        · exact (en (.slAcq t) (by simp) (by simp) (by simp) (by simp) (by simp [step, htn, hc, hv, hp])).elim
+        · exact Or.inr (Or.inr ⟨hp, hc, hv⟩)
+    | rtry =>
+      by_cases hc : s.ctx = some t
+      · exact (en (.reent t (s.cnt + 1)) (by simp) (by simp) (by simp) (by simp) (by simp [step, htn, hc, hp])).elim
+      · by_cases hv : s.v = none
+        · exact (en (.slTry t true) (by simp) (by simp) (by simp) (by simp) (by simp [step, htn, hc, hv, hp])).elim
+        · exact (en (.slTry t false) (by simp) (by simp) (by simp) (by simp) (by simp [step, htn, hc, hv, hp])).elim
+    | runlock =>
+      have hc := want_unlock_owner hi t hp
+      have hd := hi.depth t hc
+      rw [hp] at hd
+      simp [pend, Rec.b2n] at hd
+      by_cases h1 : s.cnt = 1
+      · exact (en (.zero t) (by simp) (by simp) (by simp) (by simp) (by simp [step, htn, h1, hp])).elim
+      · exact (en (.dec t (s.cnt - 1)) (by simp) (by simp) (by simp) (by simp)
+          (by simp [step, htn, hp]; omega)).elim
+  case got o =>
+    have hno : o ≠ .runlock := by have := hi.gotWf t; rw [hp] at this; simpa [gotOk] using this
+    exact (en (.own t (ownKind o)) (by simp) (by simp) (by simp) (by simp) (by simp [step, htn, hp, hno])).elim
+  case zeroed => exact (en (.free t) (by simp) (by simp) (by simp) (by simp) (by simp [step, htn, hp])).elim
+  case retn o r => exact (en (.ret t r) (by simp) (by simp) (by simp) (by simp) (by simp [step, htn, hp])).elim
+
+/-- **Hand-off (recursive).**  In a reachable stuck state a thread spinning in `lock()` implies
+    that another thread really holds the mutex (positive depth by program order): no unlock
+    is lost. -/
+theorem C06_recursive_handoff (s : St) (hr : RReachable s) (hs : RStuck s) (t : Nat)
+    (hw : RWaiting s t) : ∃ u, u ≠ t ∧ s.ctx = some u ∧ 0 < s.depthG u := by
+  have hq := C06_recursive_stuck_only_when_waiting s hr hs
+  obtain ⟨n, log, hlog⟩ := hr
+  have hi := rinv_of_accepted hlog
+  obtain ⟨_, hct, hv⟩ := hw
+  cases hvv : s.v with
+  | none => exact absurd hvv hv
+  | some u =>
+    have hpu : s.pc u = .idle ∨ s.pc u = .fin ∨ RWaiting s u := by
+      by_cases hun : u < s.n
+      · exact hq u hun
+      · exact Or.inl (hi.outside u (by omega)).1
+    have hcu : s.ctx = some u := by
+      rcases hi.vRev u hvv with h | h
+      · exact h
+      · rcases hpu with h' | h' | h' <;> simp [h', isGot] at h
+        simp [h'.1] at h
+    have hut : u ≠ t := by intro he; subst he; exact hct hcu
+    refine ⟨u, hut, hcu, ?_⟩
+    have hd := hi.depth u hcu
+    have hp := hi.cntPos u hcu
+    rcases hpu with h' | h' | h'
+    · rw [h'] at hd hp; simp [pend, isZeroed] at hd hp; omega
+    · rw [h'] at hd hp; simp [pend, isZeroed] at hd hp; omega
+    · exact absurd hcu h'.2.1
+
+/-- **try_lock / lock results (recursive).**  A lock-type call reports true exactly when it
+    re-entered or took ownership in this call; true makes the caller the `locking_context` and
+    raises its depth by one, false leaves its depth unchanged. -/
+theorem C06_recursive_trylock_sound (s s' : St) (hr : RReachable s) (t : Nat) (o : Op) (r : Bool)
+    (hp : s.pc t = .retn o r) (ho : o ≠ .runlock) (h : step s (.ret t r) = some s') :
+    s.tookOp t = r ∧ (r = true → s.ctx = some t ∧ s'.depthG t = s.depthG t + 1) ∧
+    (r = false → s'.depthG t = s.depthG t) := by
+  obtain ⟨n, log, hlog⟩ := hr
+  have hi := rinv_of_accepted hlog
+  have h1 := hi.took t r (by rw [hp]; simp [expectTook, ho])
+  simp only [step, hp] at h
+  split at h
+  · simp only [if_true, Option.some.injEq] at h
+    subst h
+    refine ⟨h1, ?_, ?_⟩
+    · intro hr'; subst hr'
+      refine ⟨?_, by simp [ho]⟩
+      by_cases hc : s.ctx = some t
+      · exact hc
+      · have := (hi.notOwner t hc).2.1; rw [hp] at this; simp [pend, Rec.b2n, ho] at this
+    · intro hr'; subst hr'; simp
+  · simp at h
+
+/-- non-vacuity: re-entrant locking, hand-over to a spinning thread -/
+example : (runLog step (init 2)
+    [.inv 0 .rlock, .slAcq 0, .own 0 1, .ret 0 true, .csEnter 0, .inv 0 .rtry, .reent 0 2, .ret 0 true,
+     .inv 1 .rtry, .slTry 1 false, .ret 1 false, .inv 1 .rlock,
+     .inv 0 .runlock, .dec 0 1, .ret 0 true, .csExit 0, .inv 0 .runlock, .zero 0, .free 0, .ret 0 true,
+     .slAcq 1, .own 1 1, .ret 1 true, .csEnter 1]).isSome = true := by decide
+
+example : ∃ s, runLog step (init 2)
+    [.inv 0 .rlock, .slAcq 0, .own 0 1, .ret 0 true, .inv 1 .rlock] = some s ∧ RWaiting s 1 := by
+  refine ⟨_, rfl, ?_⟩
+  simp [RWaiting, upd]
+
+end PikaVerif.C06
+
+/-! ## bare spinlock -/
+namespace PikaVerif.C06
+open PikaVerif PikaVerif.Spin
+
+def SReachable (s : St) : Prop := ∃ n log, runLog step (init n) log = some s
+
+/-- **Mutual exclusion (spinlock).**  At most one thread holds the spinlock (its `lock` /
+    `try_lock` reported success and it has not invoked `unlock` since). -/
+theorem C06_spin_exclusion (s : St) (hr : SReachable s) (t u : Nat)
+    (ht : s.holdsG t = true) (hu : s.holdsG u = true) : t = u ∧ s.v = some t := by
+  obtain ⟨n, log, hlog⟩ := hr
+  have hi := sinv_of_accepted hlog
+  have h1 := hi.hold1 t ht
+  have h2 := hi.hold1 u hu
+  rw [h1] at h2
+  exact ⟨by simpa using h2, h1⟩
+
+def senters : List Ev → Nat
+  | [] => 0
+  | .csEnter _ :: l => senters l + 1
+  | _ :: l => senters l
+
+def sexits : List Ev → Nat
+  | [] => 0
+  | .csExit _ :: l => sexits l + 1
+  | _ :: l => sexits l
+
+theorem scs_counters_step (s s' : St) (e : Ev) (h : step s e = some s') :
+    s'.enters = s.enters + senters [e] ∧ s'.exits = s.exits + sexits [e] := by
+  cases e <;> simp only [step] at h <;> (repeat' split at h) <;>
+    first | (simp at h; done) | (simp only [Option.some.injEq] at h; subst h; simp [senters, sexits])
+
+theorem scs_counters_log (log : List Ev) : ∀ (s s' : St), runLog step s log = some s' →
+    s'.enters = s.enters + senters log ∧ s'.exits = s.exits + sexits log := by
+  induction log with
+  | nil => intro s s' h; simp at h; subst h; simp [senters, sexits]
+  | cons e es ih =>
+    intro s s' h
+    simp only [runLog] at h
+    cases hs : step s e with
+    | none => simp [hs] at h
+    | some s1 =>
+      simp only [hs] at h
+      have h1 := scs_counters_step s s1 e hs
+      have h2 := ih s1 s' h
+      have ht : senters (e :: es) = senters [e] + senters es := by cases e <;> simp [senters] <;> omega
+      have ha : sexits (e :: es) = sexits [e] + sexits es := by cases e <;> simp [sexits] <;> omega
+      refine ⟨?_, ?_⟩ <;> omega
+
+theorem C06_spin_no_overlap (n : Nat) (l₁ l₂ : List Ev) (s : St)
+    (h : runLog step (init n) (l₁ ++ l₂) = some s) :
+    sexits l₁ ≤ senters l₁ ∧ senters l₁ ≤ sexits l₁ + 1 := by
+  obtain ⟨s₁, h1, _⟩ := runLog_prefix h
+  have hi := sinv_of_accepted h1
+  have hc := scs_counters_log l₁ _ s₁ h1
+  simp only [init] at hc
+  have hocc := hi.occSum
+  have hle : sumTo s₁.n (fun t => Spin.b2n (s₁.inCS t)) ≤ 1 := by
+    apply sumTo_le_one
+    · intro t; cases s₁.inCS t <;> simp [Spin.b2n]
+    · intro t u _ _ ht hu
+      have ht' : s₁.inCS t = true := by cases hh : s₁.inCS t <;> simp [hh, Spin.b2n] at ht ⊢
+      have hu' : s₁.inCS u = true := by cases hh : s₁.inCS u <;> simp [hh, Spin.b2n] at hu ⊢
+      exact (C06_spin_exclusion s₁ ⟨n, l₁, h1⟩ t u (hi.csHold t ht') (hi.csHold u hu')).1
+  omega
+
+def SStuck (s : St) : Prop :=
+  ∀ e, (∀ t o, e ≠ .inv t o) → (∀ t, e ≠ .done t) → (∀ t, e ≠ .csEnter t) → (∀ t, e ≠ .csExit t) →
+    step s e = none
+
+def SWaiting (s : St) (t : Nat) : Prop := s.pc t = .want .slock ∧ s.v ≠ none
+
+/-- **Progress and hand-off (spinlock).**  Stuck only with every thread between operations,
+    finished, or spinning in `lock()`; and then the spinlock is held by a thread that holds it
+    by program order (no release is lost). -/
+theorem C06_spin_stuck_only_when_waiting (s : St) (_hr : SReachable s) (hs : SStuck s) :
+    ∀ t, t < s.n → s.pc t = .idle ∨ s.pc t = .fin ∨ SWaiting s t := by
+  intro t htn
+  have en : ∀ e, (∀ t o, e ≠ .inv t o) → (∀ t, e ≠ .done t) → (∀ t, e ≠ .csEnter t) →
+      (∀ t, e ≠ .csExit t) → step s e ≠ none → False :=
+    fun e h1 h2 h3 h4 h5 => h5 (hs e h1 h2 h3 h4)
+  cases hp : s.pc t
+  case idle => exact Or.inl rfl
+  case fin => exact Or.inr (Or.inl rfl)
+  case want o =>
+    cases o with
+    | slock =>
+      by_cases hv : s.v = none
+      · exact (en (.slAcq t) (by simp) (by simp) (by simp) (by simp) (by simp [step, htn, hv, hp])).elim
+      · exact Or.inr (Or.inr ⟨hp, hv⟩)
+    | stry =>
+      by_cases hv : s.v = none
+      · exact (en (.slTry t true) (by simp) (by simp) (by simp) (by simp) (by simp [step, htn, hv, hp])).elim
+      · exact (en (.slTry t false) (by simp) (by simp) (by simp) (by simp) (by simp [step, htn, hv, hp])).elim
+    | sunlock => exact (en (.slRel t) (by simp) (by simp) (by simp) (by simp) (by simp [step, htn, hp])).elim
+  case retn o r => exact (en (.ret t r) (by simp) (by simp) (by simp) (by simp) (by simp [step, htn, hp])).elim
+
+theorem C06_spin_handoff (s : St) (hr : SReachable s) (hs : SStuck s) (t : Nat)
+    (hw : SWaiting s t) : ∃ u, s.v = some u ∧ s.holdsG u = true := by
+  have hq := C06_spin_stuck_only_when_waiting s hr hs
+  obtain ⟨n, log, hlog⟩ := hr
+  have hi := sinv_of_accepted hlog
+  cases hvv : s.v with
+  | none => exact absurd hvv hw.2
+  | some u =>
+    refine ⟨u, rfl, ?_⟩
+    rcases hi.vRev u hvv with h | h
+    · exact h
+    · exfalso
+      have hpu : s.pc u = .idle ∨ s.pc u = .fin ∨ SWaiting s u := by
+        by_cases hun : u < s.n
+        · exact hq u hun
+        · exact Or.inl (hi.outside u (by omega)).1
+      rcases hpu with h' | h' | h' <;> simp [h', mid] at h
+      simp [h'.1] at h
+
+/-- **try_lock is honest (spinlock).**  `lock`/`try_lock` report true exactly when this call
+    performed the successful exchange; then the caller is the holder. -/
+theorem C06_spin_trylock_sound (s s' : St) (hr : SReachable s) (t : Nat) (o : Op) (r : Bool)
+    (hp : s.pc t = .retn o r) (ho : o ≠ .sunlock) (h : step s (.ret t r) = some s') :
+    s.tookOp t = r ∧ (r = true → s.v = some t ∧ s'.holdsG t = true) := by
+  obtain ⟨n, log, hlog⟩ := hr
+  have hi := sinv_of_accepted hlog
+  have h1 := hi.took t r (by rw [hp]; simp [expectTook, ho])
+  simp only [step, hp] at h
+  split at h
+  · simp only [if_true, Option.some.injEq] at h
+    subst h
+    refine ⟨h1, ?_⟩
+    intro hr'; subst hr'
+    exact ⟨hi.stage t (by rw [hp]; simp [mid, ho]), by simp [ho]⟩
+  · simp at h
+
+example : (runLog step (init 2)
+    [.inv 0 .slock, .slAcq 0, .ret 0 true, .csEnter 0, .inv 1 .stry, .slTry 1 false, .ret 1 false,
+     .inv 1 .slock, .csExit 0, .inv 0 .sunlock, .slRel 0, .ret 0 true, .slAcq 1, .ret 1 true,
+     .csEnter 1]).isSome = true := by decide
 
 end PikaVerif.C06
